@@ -158,6 +158,20 @@ def _bits_fn(t, rel, lines):
     lines.append("")
 
 
+def _xor_terms(b):
+    """`let e = T ^ T ^ …;` with T = `self.f` | `(self.f & self.g)`; returns list of tuples of field names."""
+    m = re.search(r"let e =\s*(.*?);", b, re.S)
+    if not m:
+        return None
+    terms = []
+    for t in " ".join(m.group(1).split()).split(" ^ "):
+        mm = re.fullmatch(r"\(self\.(\w+) & self\.(\w+)\)", t) or re.fullmatch(r"self\.(\w+)", t)
+        if not mm:
+            return None
+        terms.append(mm.groups())
+    return terms
+
+
 def _indices_fns(t, rel, lines):
     """Which stored intermediates feed the three table_indices_* functions."""
     spec = {}
@@ -165,10 +179,10 @@ def _indices_fns(t, rel, lines):
     if m:
         b = re.sub(r"//.*", "", m.group(1))
         names = dict(re.findall(r"let (\w) = &self\.(\w+);", b))
-        em = re.search(r"let e = \(self\.(\w+) & self\.(\w+)\) \^ \(self\.(\w+) & self\.(\w+)\) \^ self\.(\w+);", b)
+        em = _xor_terms(b)
         calls = re.findall(r"intermediates_to_table_indices\((\w), (\w), &?(\w), output\.iter_mut\(\)\.map\(\|tup\| &mut tup\.(\d)\)\)", b)
         if em and len(calls) == 2 and set("abcdf") <= set(names):
-            spec["prover"] = {"names": names, "e": list(em.groups()), "calls": calls}
+            spec["prover"] = {"names": names, "e": em, "calls": calls}
             record(PFX + "table_indices_prover", rel, t, m, spec["prover"])
         else:
             fail(PFX + "table_indices_prover", "body shape not recognised")
@@ -178,10 +192,10 @@ def _indices_fns(t, rel, lines):
     if m:
         b = re.sub(r"//.*", "", m.group(1))
         names = dict(re.findall(r"let (\w) = &self\.(\w+);", b))
-        em = re.search(r"let e = \(self\.(\w+) & self\.(\w+)\) \^ self\.(\w+) \^ self\.(\w+);", b)
+        em = _xor_terms(b)
         calls = re.findall(r"intermediates_to_table_indices\((\w), (\w), &?(\w), output\.iter_mut\(\)\)", b)
         if em and len(calls) == 1:
-            spec["right"] = {"names": names, "e": list(em.groups()), "calls": calls}
+            spec["right"] = {"names": names, "e": em, "calls": calls}
             record(PFX + "table_indices_from_right_prover", rel, t, m, spec["right"])
         else:
             fail(PFX + "table_indices_from_right_prover", "body shape not recognised")
@@ -206,11 +220,14 @@ def _indices_fns(t, rel, lines):
     def f(n):
         return "B." + fld[n]
 
+    def xor(terms):
+        return " ^^^ ".join(f"({f(t[0])} &&& {f(t[1])})" if len(t) == 2 else f(t[0]) for t in terms)
+
     p = spec["prover"]
     e = p["e"]
     lines.append("/-- `table_indices_prover`: (u-index triple, v-index triple) as 256-bit words, least significant index bit first -/")
     lines.append("def proverTriples (B : Block) : (Nat × Nat × Nat) × (Nat × Nat × Nat) :=")
-    lines.append(f"  let e := ({f(e[0])} &&& {f(e[1])}) ^^^ ({f(e[2])} &&& {f(e[3])}) ^^^ {f(e[4])}")
+    lines.append("  let e := " + xor(e))
     ren = {k: f(v) for k, v in p["names"].items()}
     ren["e"] = "e"
     calls = sorted(p["calls"], key=lambda c: c[3])
@@ -219,7 +236,7 @@ def _indices_fns(t, rel, lines):
     e = r["e"]
     lines.append("/-- `table_indices_from_right_prover` (this helper is the verifier to the LEFT of the prover): u-index triple -/")
     lines.append("def fromRightProverTriple (B : Block) : Nat × Nat × Nat :=")
-    lines.append(f"  let e := ({f(e[0])} &&& {f(e[1])}) ^^^ {f(e[2])} ^^^ {f(e[3])}")
+    lines.append("  let e := " + xor(e))
     ren = {k: f(v) for k, v in r["names"].items()}
     ren["e"] = "e"
     lines.append("  (" + ", ".join(ren[x] for x in r["calls"][0][:3]) + ")")
